@@ -586,6 +586,90 @@ theorem synthesised_denial_inherits (soa : Int) (proofs : List Int) :
     synthExpiry soa proofs ≤ soa ∧ ∀ p ∈ proofs, synthExpiry soa proofs ≤ p :=
   ⟨foldl_boundMin_le_init proofs soa, fun p hp => foldl_boundMin_le_mem proofs soa p hp⟩
 
+/-- **A synthesised RFC 8198 denial inherits the shortest of its pieces —
+including the SOA entry cached for the zone *now*.** Whatever sequence of
+admissions produced the current SOA expiry `soa` and the selected proof
+entries' expiries `proofs` (a later admission for another owner replaces only
+the SOA entry, possibly with a much shorter-lived one), a synthesis is served
+only while every piece is live, the expiry it reports to the request tree is
+no later than any piece's, and the TTL stamped on every record (the SOA's
+too) is within what every piece has left. -/
+theorem synthesis_within_every_piece (soa : Int) (proofs : List Int) (now : Int) (t : Nat) (e : Int)
+    (h : synthServe soa proofs now = some (t, e)) :
+    now < soa ∧ (∀ p ∈ proofs, now < p) ∧ e ≤ soa ∧ (∀ p ∈ proofs, e ≤ p) ∧
+      (t : Int) * S ≤ soa - now ∧ (∀ p ∈ proofs, (t : Int) * S ≤ p - now) := by
+  unfold synthServe at h
+  split at h
+  · cases h
+  · rename_i hsoa
+    split at h
+    · cases h
+    · split at h
+      · cases h
+      · rename_i hany
+        simp only at h
+        split at h
+        · cases h
+        · rename_i hpos
+          simp only [Option.some.injEq, Prod.mk.injEq] at h
+          obtain ⟨ht, he⟩ := h
+          have hs := (synthesised_denial_inherits soa proofs).1
+          have hp := (synthesised_denial_inherits soa proofs).2
+          have hall : ∀ p ∈ proofs, now < p := by
+            intro p hp'
+            have : ¬ (decide (now ≥ p) = true) := fun hc => hany (List.any_eq_true.mpr ⟨p, hp', hc⟩)
+            simp only [decide_eq_true_eq] at this
+            omega
+          have hsec := secs_mul_le (synthExpiry soa proofs - now) (by omega)
+          subst ht; subst he
+          refine ⟨by omega, hall, hs, hp, by omega, ?_⟩
+          intro p hp'; have := hp p hp'; omega
+
+/-- Within ONE admission a proof RRset's entry never outlives the SOA entry
+admitted beside it (`extract` folds the SOA RRset into every proof set's
+lifetime).  This says nothing about the SOA entry a *later* admission puts in
+its place — which is why `synthServe` takes the minimum over the current SOA
+as well (`synthesis_within_every_piece`). -/
+theorem proof_piece_expires_with_its_own_soa (hardMax now maxTTL : Int) (cut : Option Int)
+    (common set : List ProofRR) (a b : Int)
+    (h : proofAdmit hardMax now maxTTL cut common set = some (a, b)) : b ≤ a := by
+  unfold proofAdmit at h
+  cases ha : denialProofExpiry hardMax now maxTTL cut common with
+  | none => rw [ha] at h; cases h
+  | some a' =>
+    cases hb : denialProofExpiry hardMax now maxTTL cut (common ++ set) with
+    | none => rw [ha, hb] at h; cases h
+    | some b' =>
+      rw [ha, hb] at h
+      simp only [Option.some.injEq, Prod.mk.injEq] at h
+      obtain ⟨rfl, rfl⟩ := h
+      have happ : allProofBounds now (common ++ set) = allProofBounds now common ++ allProofBounds now set := by
+        unfold allProofBounds; exact List.flatMap_append
+      have hle := foldl_boundMin_le_init (allProofBounds now set)
+      unfold denialProofExpiry at ha hb
+      rw [happ] at hb
+      cases cut with
+      | none =>
+        simp only [List.foldl_append] at ha hb
+        have := hle ((allProofBounds now common).foldl boundMin
+          (if maxTTL ≤ 0 ∨ maxTTL > hardMax then hardMax else maxTTL))
+        generalize (if maxTTL ≤ 0 ∨ maxTTL > hardMax then hardMax else maxTTL) = mx at ha hb this
+        split at ha
+        · cases ha
+        · split at hb
+          · cases hb
+          · simp only [Option.some.injEq] at ha hb; omega
+      | some c =>
+        simp only [List.foldl_append] at ha hb
+        have := hle ((allProofBounds now common).foldl boundMin
+          (boundMin (if maxTTL ≤ 0 ∨ maxTTL > hardMax then hardMax else maxTTL) (c - now)))
+        generalize (if maxTTL ≤ 0 ∨ maxTTL > hardMax then hardMax else maxTTL) = mx at ha hb this
+        split at ha
+        · cases ha
+        · split at hb
+          · cases hb
+          · simp only [Option.some.injEq] at ha hb; omega
+
 /-- both statements under the name the design uses. -/
 theorem cut_and_proof_unfloored (maxTTL hardMax now : Int) (soaTtl soaMin : Nat) (recs : List ProofRR)
     (cut : Option Int) :
@@ -699,6 +783,13 @@ example : collectWireChase (41 * S) [{ stored := 40 * S, ttl := 600 * S, cut := 
 -- a cut below the floor: SOA minimum 2 s
 example : cutRecordTTL (7200 * S) 0 300 2 [] none = some (2 * S) := by decide
 example : denialProofExpiry (10800 * S) 0 (600 * S) (some (3 * S)) [{ rr := { ttl := 300 } }] = some (3 * S) := by decide
+
+-- synthesis: NSEC piece admitted at 0 for 300 s, the zone's SOA entry replaced at 50 s by a 30 s one;
+-- at 60 s the denial is served with 19 s on every record and expires with the SOA at 80 s
+example : synthServe (80 * S) [300 * S] (60 * S + 1) = some (19, 80 * S) := by decide
+example : synthServe (80 * S) [300 * S] (80 * S) = none := by decide
+example : proofAdmit (10800 * S) 0 (7200 * S) none [{ rr := { ttl := 30, kind := .soa 30 } }] [{ rr := { ttl := 300 } }]
+    = some (30 * S, 30 * S) := by decide
 
 -- the interleaving: capture, newer Set, late CAS
 example : (casStep (casRun {} [.set, .capture 0, .set]) (.cas 0)).2 = false := by decide
